@@ -10,7 +10,7 @@ RULE = (
     "histories of operations on ONE cutplace.Cid object; operations (each over three small data sets that share key and "
     "value cells): read completely (yield mode + close; raise mode through cutplace.rows), read and abandon after k = 0, 1, "
     "2 items (generator and reader closed, or everything just dropped), read without closing, two complete runs of one Reader, a Reader created before the history begins and read at its turn, reader closed without "
-    "iterating, validate with limit 0, validate, write rows without close, write and close, CutplaceApp.validate (the command line's per-file step) - 63 operations - on CIDs with "
+    "iterating, validate with limit 0, validate, write rows without close, write and close, CutplaceApp.validate (the command line's per-file step) - 66 operations - on CIDs with "
     "IsUnique, DistinctCount, or both (delimited) a fixed CID without a declared line delimiter whose data sets end their lines with CR LF, and a CID whose checks were handed over through Cid.add_check(). Oracle: history + model where the model is the implementation with fresh state: the "
     "outcome of the last operation of every history (items, rejections with row numbers, end-of-data result, written text, "
     "counters) must equal the outcome of the same operation on a freshly loaded CID. Quick: all histories of length <= 2 "
@@ -63,6 +63,9 @@ def operations():
         # one Reader used for two complete runs (read, close, rewind the stream, read, close)
         ops.append(("read-twice-one-reader", d))
         ops.append(("read-twice-limit0", d))
+        # one Reader whose rows are asked for again and again without closing it in between (complete, complete,
+        # abandoned after the first item, complete; then closed): every complete run starts at the first row
+        ops.append(("read-again-without-close", d))
         # a Reader that exists since before the first operation of the history (readers = [Reader(cid, f) for f in
         # files], then one after the other): its run begins when its rows are asked for
         ops.append(("read-created-early", d))
@@ -199,6 +202,28 @@ def perform(cid, op, early=None):
                 runs.append({"items": items, "end": end, "counters": [reader.accepted_rows_count, reader.rejected_rows_count]})
             out["items"], out["end"], out["counters"] = runs[0]["items"], runs[0]["end"], runs[0]["counters"]
             out["second_run"] = runs[1]
+        elif kind == "read-again-without-close":
+            stream = source_for(d, text)
+            reader = validio.Reader(cid, stream, on_error="yield")
+            runs = []
+            for complete in (True, True, False, True):
+                stream.seek(0)
+                items = []
+                for item in reader.rows():
+                    items.append(err(item) if isinstance(item, Exception) else item)
+                    if not complete:
+                        break
+                if complete:
+                    runs.append({"items": items, "end": None, "counters": [reader.accepted_rows_count, reader.rejected_rows_count]})
+            try:
+                reader.close()
+                end = None
+            except errors.CutplaceError as e:
+                end = err(e)
+            for run in runs:
+                run["end"] = end
+            out["items"], out["end"], out["counters"] = runs[0]["items"], runs[0]["end"], runs[0]["counters"]
+            out["second_run"] = runs[1] if runs[1] != runs[0] else runs[2]
         elif kind == "read-twice-limit0":
             # one Reader under a validation limit of 0, read and closed twice: both runs validate no row, and both are
             # judged at their end like any run
@@ -300,7 +325,9 @@ def new_cid(cid_kind):
         return cid
     if cid_kind.startswith("fixed"):
         return gen.load_cid(RM.CidModel("fixed", FIXED_FIELDS, CIDS[cid_kind], line_delimiter=None))
-    return gen.load_cid(RM.CidModel("delimited", FIELDS, CIDS[cid_kind]))
+    # (two of the delimited CIDs declare a line delimiter of their own: what a Writer emits on the second use of the CID
+    # is what it emits on the first)
+    return gen.load_cid(RM.CidModel("delimited", FIELDS, CIDS[cid_kind], line_delimiter={"both-reversed": "lf", "distinct": "cr"}.get(cid_kind)))
 
 
 def text_for(cid, rows):
@@ -463,7 +490,7 @@ def run(ctx):
                 if ctx.mine(index):
                     check_history(ctx, cid_kind, history)
     ctx.exhaustive = True
-    ctx.note("exhaustive part: all histories of length <= %d over 63 operations x 4 CIDs; longer histories are sampled" % max_len)
+    ctx.note("exhaustive part: all histories of length <= %d over 66 operations x 6 CIDs; longer histories are sampled" % max_len)
     n = ctx.pick(2500, 20000)
     lo, hi = ctx.pick((3, 4), (5, 8))
     for i in range(n):
